@@ -67,7 +67,9 @@ type FuncContract struct {
 	StructuralOnly  bool
 	Derived         []string
 	Approx          []string
+	NDIfaceOnly     bool // "ndmodel interface": ND values are used through the interface contracts only (no static dispatch on a known dynamic type)
 	LocModel        bool
+	SimplifyIDs     bool // "simplify entry-ids"
 	ChainEnsures    bool // "chain ensures": each postcondition may assume the ones listed before it
 	ViewsUnchecked  bool // "views unchecked": Slice may describe a view that extends beyond its parent (Slice itself checks nothing)
 	Fresh           []string
@@ -397,6 +399,8 @@ func parseFuncDirective(fc *FuncContract, word, rest, file string, line int) {
 		default:
 			fatalf("%s:%d: unknown loop directive %q", file, line, f[1])
 		}
+	case "simplify":
+		fc.SimplifyIDs = strings.TrimSpace(rest) == "entry-ids"
 	case "chain":
 		fc.ChainEnsures = strings.TrimSpace(rest) == "ensures"
 	case "views":
@@ -437,6 +441,7 @@ func parseFuncDirective(fc *FuncContract, word, rest, file string, line int) {
 		fc.Fresh = append(fc.Fresh, splitNames(rest)...)
 	case "ndmodel":
 		fc.LocModel = strings.TrimSpace(rest) == "locations"
+		fc.NDIfaceOnly = strings.TrimSpace(rest) == "interface"
 	case "atsend":
 		// atsend [label] expr: holds when the goroutine body signals completion (channel send)
 		fc.Clauses = append(fc.Clauses, mk("atsend", rest, -1))
